@@ -786,7 +786,9 @@ func (x *Exec) applyHavoc(fr *frame, st *State, hav *havocSet, pre *State) {
 		old := st.cells[id]
 		if old.Loc != nil || old.Clo != nil || old.Tuple != nil {
 			// pointer-valued local changed in loop: cannot havoc structurally
-			st.cells[id] = Val{T: Term{S: "UNSUPPORTED", Sort: "?"}, Typ: old.Typ}
+			// a pointer-valued local that the loop changes: afterwards it may point anywhere
+			// (of its static type); stores through it havoc by type, other uses are unsupported
+			st.cells[id] = Val{T: Term{S: "WILD", Sort: "?"}, Typ: old.Typ}
 			continue
 		}
 		nv := x.vc.freshConst("hv", old.T.Sort)
@@ -978,8 +980,11 @@ func (x *Exec) val(st *State, v ssa.Value) (Val, error) {
 	if !ok {
 		return Val{}, fmt.Errorf("internal: value %s (%T) not available", v.Name(), v)
 	}
-	if r.T.S == "UNSUPPORTED" {
-		return Val{}, unsupported("pointer-valued local modified in a loop")
+	if r.T.S == "WILD" {
+		if r.Typ == nil {
+			r.Typ = v.Type()
+		}
+		return r, nil
 	}
 	return r, nil
 }
@@ -1436,6 +1441,9 @@ func (x *Exec) inBounds(idx, ln Term, it types.Type) Term {
 
 func (x *Exec) load(fr *frame, st *State, p Val, pos token.Pos) (Val, error) {
 	vc := x.vc
+	if p.T.S == "WILD" {
+		return Val{}, unsupported("load through a pointer-valued local modified in a loop")
+	}
 	if p.Loc != nil {
 		v, err := vc.loadLoc(st, p.Loc)
 		if err != nil {
@@ -1462,6 +1470,13 @@ func (x *Exec) load(fr *frame, st *State, p Val, pos token.Pos) (Val, error) {
 }
 
 func (x *Exec) store(fr *frame, st *State, a Val, v Val, pos token.Pos) error {
+	if a.T.S == "WILD" {
+		pt, ok := a.Typ.Underlying().(*types.Pointer)
+		if !ok {
+			return unsupported("store through unknown non-pointer")
+		}
+		return x.wildStore(fr, st, pt.Elem())
+	}
 	if a.Loc != nil {
 		return x.vc.storeLoc(st, a.Loc, v)
 	}
@@ -1474,6 +1489,60 @@ func (x *Exec) store(fr *frame, st *State, a Val, v Val, pos token.Pos) error {
 		return unsupported("pointer/closure stored through object pointer")
 	}
 	return x.vc.storeObject(st, a.T, pt.Elem(), v.T)
+}
+
+// wildStore: a store through a pointer whose target is unknown (a pointer-valued local that a
+// loop modified). By Go's typing the target is some location of static type elem: every heap
+// map whose element type is identical to elem is havoced.
+func (x *Exec) wildStore(fr *frame, st *State, elem types.Type) error {
+	vc := x.vc
+	if st.epoch != 0 && false {
+		return nil
+	}
+	keys := map[string]string{}
+	ck, cs := vc.cellKey(elem)
+	keys[ck] = cs
+	ek, es := vc.elemKey(elem)
+	keys[ek] = es
+	seen := map[*types.Package]bool{}
+	var visit func(p *types.Package)
+	visit = func(p *types.Package) {
+		if p == nil || seen[p] || !strings.HasPrefix(p.Path(), repoModule) {
+			return
+		}
+		seen[p] = true
+		for _, name := range p.Scope().Names() {
+			tn, ok := p.Scope().Lookup(name).(*types.TypeName)
+			if !ok {
+				continue
+			}
+			su, ok := tn.Type().Underlying().(*types.Struct)
+			if !ok {
+				continue
+			}
+			for i := 0; i < su.NumFields(); i++ {
+				if types.Identical(su.Field(i).Type(), elem) {
+					k, s := vc.fieldKey(tn.Type(), i)
+					keys[k] = s
+				}
+			}
+		}
+	}
+	for _, pkg := range x.eng.pkgs {
+		visit(pkg.Types)
+	}
+	var ks []string
+	for k := range keys {
+		ks = append(ks, k)
+	}
+	sort.Strings(ks)
+	for _, k := range ks {
+		vc.setHeap(st, k, vc.freshConst("Hw", keys[k]), -1)
+	}
+	if vc.dry == 0 {
+		vc.dropped["store through a loop-modified pointer of type *"+typeKey(elem)+": all locations of that type havoced"] = true
+	}
+	return nil
 }
 
 func (x *Exec) execSlice(fr *frame, st *State, i *ssa.Slice) error {
